@@ -1376,10 +1376,13 @@ class NetlistEmitter:
             driven_bits = [None] * len(sig)
             for driver in sig_drivers.values():
                 lhs = self.emit_signal(driver.signal)
-                if len(sig_drivers) == 1 and all(net not in self.netlist.connections for net in lhs):
+                if (len(sig_drivers) == 1 and
+                        any(len(assign.value) for assign in driver.assignments) and
+                        all(net not in self.netlist.connections for net in lhs)):
                     # If the signal is only assigned from one (module, clock domain) pair, and is
                     # also not driven by any instance, extend this driver to cover all bits of
-                    # the signal for nicer netlist output.
+                    # the signal for nicer netlist output. A driver that assigns no bits at all
+                    # (all of its targets are zero-width) does not drive the signal.
                     driver_mask = (1 << len(sig)) - 1
                     driver_bit_start = 0
                     driver_bit_stop = len(sig)
